@@ -297,31 +297,40 @@ def report_crash(ctx, exc, cfg, msg, src, count, site=""):
 # ---------------------------------------------------------------------------------------------- N-way: effect-order matrix
 def part_matrix(ctx, cfgs):
     """the C08 position x effect matrix, compared configuration-against-configuration (no oracle)"""
-    from vlib.c08_gen import Builder, build_one, build_group
+    from vlib.c08_gen import Builder, build_one, build_group, RVE_POSITIONS, uses_tra
     from vlib.configs import Config, compile_src
     t0 = time.time()
     mk = lambda salt: ctx.rng("matrix:" + salt)
     ref = [Config(False, "gas", "prague"), Config(True, "gas", "prague")]
-    accepted = []
-    for pos in Builder.POSITIONS:
+    # read-vs-effect part of the matrix (left operand reads state the right operand's call changes): one sixth of it per
+    # seed in the quick tier (C08 runs a third against the oracle), all of it in the thorough tier
+    nr = len(Builder.RVE_READS)
+    rve = [q for k, q in enumerate(RVE_POSITIONS) if ctx.tier != "quick" or (k // nr + k % nr + ctx.seed) % 6 == 0]
+    accepted = {False: [], True: []}
+    for pos in list(Builder.POSITIONS) + rve + list(Builder.RVE_CPLX):
         src = build_one(mk, pos, 0).p.vy(prune=True)
         try:
             for c in ref:
                 compile_src(src, c, formats=("bytecode",))
-            accepted.append((pos, 0))
+            accepted[uses_tra(pos)].append((pos, 0))
         except Exception:
             pass
     items = []
-    for k in range(0, len(accepted), 10):
-        p, unordered, labels = build_group(mk, accepted[k:k + 10])
-        items.append({"prog": p, "calls": [H.Call(i, []) for i in range(len(p.exts))], "labels": labels,
-                      "unordered": {i for i, u in unordered.items() if u}, "group": accepted[k:k + 10]})
+    for tra in (False, True):
+        acc = accepted[tra]
+        for k in range(0, len(acc), 10):
+            p, unordered, labels = build_group(mk, acc[k:k + 10])
+            items.append({"prog": p, "calls": [H.Call(i, [], value=p.c08_values.get(i, 0)) for i in range(len(p.exts))],
+                          "labels": labels, "unordered": {i for i, u in unordered.items() if u}, "group": acc[k:k + 10],
+                          "applicable": (lambda c, p=p: D.cfg_applicable(p, c))})
     obs = D.observe_all(items, cfgs, procs=4)
     n_cmp = 0
     seen = {}
     for i, it in enumerate(items):
         per = {}
         for j, cfg in enumerate(cfgs):
+            if (i, j) not in obs:
+                continue
             st, o = obs[(i, j)]
             if st == "exc":
                 continue   # crashes are reported by part_generated / part_corpus
@@ -347,7 +356,8 @@ def part_matrix(ctx, cfgs):
             cls = "compare-operands" if (cls.startswith("cmp_") or cls == "if_cond") else \
                   "bitwise-operands" if cls in ("binop_BOr", "binop_BAnd", "binop_BXor") else \
                   "augassign-bitwise-value-order" if cls in ("aug_scalar_BXor", "aug_scalar_BOr", "aug_scalar_BAnd") else \
-                  "augassign-value-order" if cls.startswith("aug_scalar") else cls
+                  "augassign-value-order" if cls.startswith("aug_scalar") else \
+                  ("read-vs-effect:" + cls[4:].rsplit("_", 1)[0]) if cls.startswith("rve_") else cls
             key = f"C02:matrix:{cls}"
             if key in seen:
                 seen[key] += 1
